@@ -16,6 +16,10 @@ impl Exec {
             "sim" => simx::exec(&mut self.sim, &toks[1..]),
             "tim" => c34::exec(&mut self.tim, &toks[1..]),
             "src" => c25::exec(&mut self.src, &toks[1..]),
+            "lex" => lexp::exec_lex(&toks[1..]),
+            "parse" => lexp::exec_parse(&toks[1..]),
+            "print" => lexp::exec_print(&toks[1..]),
+            "disasm" => lexp::exec_disasm(&toks[1..]),
             "off" => c35::exec(false, &toks[1..]),
             "offt" => c35::exec(true, &toks[1..]),
             "wop" => c15::exec(&toks[1..]),
